@@ -164,9 +164,9 @@ func c17Build(key string, row c17Row, onCmd bool, wide bool, posVariant int, pat
 		descs["@"] = small.Desc
 	}
 	top := &decl.Cmd{Name: "app", SubOptional: true}
-	cmd := &decl.Cmd{Field: "Cmd", Name: "cmd"}
+	cmd := &decl.Cmd{Field: "Cmd", Name: "cmd", Desc: "CMDDESCa"}
 	// a second, described command whose name is longer in bytes than in characters (the command list has its own column)
-	top.Cmds = []*decl.Cmd{cmd, {Field: "Uml", Name: "prüfen-größe", Desc: "checks"}}
+	top.Cmds = []*decl.Cmd{cmd, {Field: "Uml", Name: "prüfen-größe", Desc: "CMDDESCb"}, {Field: "Jp", Name: "日本", Desc: "CMDDESCc"}}
 	first := small
 	if wide {
 		first = w
@@ -362,6 +362,30 @@ func init() {
 				return
 			}
 		}
+		// 0. the list of commands has a description column of its own: one column for all of them, counted in characters
+		{
+			ccol, in := -1, false
+			for _, ln := range lines {
+				if strings.HasPrefix(ln, "Available commands:") {
+					in = true
+					continue
+				}
+				if !in {
+					continue
+				}
+				if strings.TrimSpace(ln) == "" {
+					break
+				}
+				if ci := runeIndex(ln, "CMDDESC"); ci >= 0 {
+					c.Hit("command-list")
+					if ccol >= 0 && ci != ccol {
+						c.Fail("command-descriptions-not-in-one-column|"+script, map[string]interface{}{"columns": []int{ccol, ci}, "help": text})
+						return
+					}
+					ccol = ci
+				}
+			}
+		}
 		// 1. one common description column
 		col := -1
 		type blk struct {
@@ -473,12 +497,12 @@ func init() {
 		ShardDepth: 4,
 		Body:       body,
 		Setup:      c17Setup,
-		Rule: "row under test: long name of 0/1/5/20 characters in {ASCII, 2-byte, 3-byte} script x short name {none, ASCII, é} x value name {none, ASCII, non-ASCII} x choices? (two, or a single long one with the ASCII value name), plus rows whose argument is optional (with and without value name), plus every named row inside a group with a long namespace, alone, nested in a hidden group, nested in a second namespaced group, and a row with eight long choices (column beyond 64), last of its block, on the parser or on an active command (indented); the parser lists two commands, one described and with a multi-byte name " +
+		Rule: "(three described commands - an ASCII name, a name with two-byte characters, a name of three-byte characters: where the list of commands is shown its descriptions start in one column, counted in characters) row under test: long name of 0/1/5/20 characters in {ASCII, 2-byte, 3-byte} script x short name {none, ASCII, é} x value name {none, ASCII, non-ASCII} x choices? (two, or a single long one with the ASCII value name), plus rows whose argument is optional (with and without value name), plus every named row inside a group with a long namespace, alone, nested in a hidden group, nested in a second namespaced group, and a row with eight long choices (column beyond 64), last of its block, on the parser or on an active command (indented); the parser lists two commands, one described and with a multi-byte name " +
 			"x neighbour row {widest of all, 1-character (its description starts with a line of one character)} x described positional {none, ASCII name, non-ASCII name, a long name on an active command that has no options} x description = marker word + word-length pattern (8 quick / 16 thorough patterns over lengths 1,5,9,10,11,25,40) in {ASCII, mixed 1/2/3-byte (so that the characters on both sides of a forced break differ in size), 3-byte, 4-byte (non-BMP)} script (quick: the last two without a described positional) x embedded line break {none, after marker, after first word} or two consecutive blanks {after marker, after first word; ASCII descriptions} " +
 			"x every terminal width 1..100 (quick) / 1..300 (thorough), and 0 (a terminal that reports no columns: laid out as for 80), visited from the widest down within one process, set with TIOCSWINSZ on a real pty whose slave is fd 0 (the library's own ioctl reads it); oracle: no panic; all descriptions (found through their marker words) start in one character column; " +
 			"every continuation line is exactly that many blanks + text; all lines valid UTF-8; joining hyphen breaks gives back the original word sequence; no description line longer than the width while width - column >= 10; distinct = distinct (column, width asserted?, script, line count)",
 		Assumptions:  []string{"columns are counted in characters (East-Asian display width is not modelled)", "descriptions contain no hyphens and no empty lines"},
-		RequiredHits: []string{"rendered", "wrapped", "width-asserted"},
+		RequiredHits: []string{"rendered", "wrapped", "width-asserted", "command-list"},
 		Bound:        [2]string{"widths 1..100, 8 description patterns", "widths 1..300, 16 description patterns"},
 		BudgetS:      [2]int{170, 1500},
 	})
